@@ -497,9 +497,6 @@ func (r *Resolver) resolveOne(ctx context.Context, name, typ string) ([]any, err
 		cache.Remove(key)
 		return nil, err
 	}
-	if len(res) == 0 {
-		ttl = 300
-	}
 	v.expiration = timeNow().Add(time.Second * time.Duration(ttl))
 	v.result = res
 	return res, nil
@@ -530,6 +527,10 @@ func (r *Resolver) resolveOneNoCache(ctx context.Context, name, typ string) ([]a
 	}
 	var res []any
 	var ttl uint32
+	if len(result.Answer) == 0 {
+		// A response without any record carries no TTL.
+		ttl = 300
+	}
 	want := strings.TrimSuffix(name, ".")
 	for i, a := range result.Answer {
 		if i == 0 || ttl > a.TTL {
